@@ -128,7 +128,18 @@ func (p *Machine) Run(instructions []byte, localSubrs, globalSubrs [][]byte, han
 	p.ArgStack.Top = 0
 	p.callStack.top = 0
 
-	for len(p.instructions) > 0 {
+	for {
+		if len(p.instructions) == 0 {
+			// CFF2 subroutines have no 'return' operator: reaching the end
+			// of a subroutine returns to the caller
+			if p.callStack.top == 0 {
+				break
+			}
+			p.callStack.top--
+			p.instructions = p.callStack.vals[p.callStack.top]
+			continue
+		}
+
 		// Push a numeric operand on the stack, if applicable.
 		if hasResult, err := p.parseNumber(); hasResult {
 			if err != nil {
